@@ -65,6 +65,16 @@ def judge(cfg, obs):
         elif "exc" in r and not failing and r["kind"] != "harness":
             bad.append(("exception:%s" % r["exc"][0], "step %s raised %s%r" % (r["kind"], r["exc"][0], r["exc"][1])))
     nj = cfg["n_jobs"]
+    if nj == 1:
+        # sequential path: items are pulled one batch at a time, in the calling thread
+        b = cfg["batch_size"] if isinstance(cfg["batch_size"], int) else 1
+        if env.max_ahead_exec > b:
+            bad.append(("I4-sequential-not-lazy", "n_jobs=1: %d items taken beyond the executed tasks, more than one batch of %d" % (env.max_ahead_exec, b)))
+        if env.pullers.get(1, set()) - {"caller"}:
+            bad.append(("I1-sequential-foreign-thread", "n_jobs=1 but items were pulled by %r" % sorted(env.pullers.get(1))))
+        for name, detail in env.inv_violations:
+            bad.append(("I6-" + name, detail))
+        return bad
     bmax = cfg["batch_size"] if isinstance(cfg["batch_size"], int) else env.b_max
     P = PC.resolve_pre(cfg["pre_dispatch"], nj)
     infl = env.max_inflight_by_call.get(1, 0)
@@ -116,6 +126,9 @@ def plan(ctx):
     else:
         for c in base:
             items.append((c, (1, 1, 2, 2), 300000))
+    # n_jobs == 1: the sequential path must stay lazy (one batch ahead at most)
+    for bs, pre, ra in itertools.product((1, 3, "auto"), ("2*n_jobs", "all", 1), ("list", "generator")):
+        items.append((dict(n_jobs=1, batch_size=bs, pre_dispatch=pre, return_as=ra, script="plain", n=8), (0, 0, 0, 0), 10))
     # I6: failure / close / drop scripts
     scripts = []
     for nj, bs, pre in itertools.product(PC.N_JOBS, (1, 2), (1, "n_jobs", "2*n_jobs", 3)):
